@@ -189,16 +189,7 @@ def run(repo: Repo, rep: Report, tier: str) -> None:
 
     # ---- reader ------------------------------------------------------------------
     dec = repo.func("dimse_messages", "DIMSEMessage.decode_msg")
-    tests = [n for n in walk_no_nested(dec) if isinstance(n, ast.Compare) and "CommandDataSetType" in norm(n.left)]
-    rep.need(tests, "decode_msg: CommandDataSetType test vanished")
-    for t in tests:
-        c = t.comparators[0]
-        ok = isinstance(t.ops[0], ast.Eq) and isinstance(c, ast.Constant) and c.value == 0x0101
-        rep.check(ok, "reader", "dimse_messages.DIMSEMessage.decode_msg", t, "'no data set' must be recognised as exactly CommandDataSetType == 0x0101", mod=mod, node=t)
-        # and the true branch returns True (message complete)
-        iff = enclosing(t, (ast.If,))
-        rets = [s for s in iff.body if isinstance(s, ast.Return)]
-        rep.check(bool(rets) and isinstance(rets[0].value, ast.Constant) and rets[0].value.value is True, "reader", "dimse_messages.DIMSEMessage.decode_msg", "return True when no data set", "a message without data set must complete at its last command fragment", mod=mod, node=iff)
+    check_reader_presence(repo, rep, "reader")
 
 
 def _pdv_header(st: ast.AST):
@@ -299,3 +290,62 @@ def _check_path_premise(repo: Repo, rep: Report) -> bool:
             rep.check(ok, "path-premise", fq, f"{obj}._dataset_path with {obj}.DataSet", "a path sets both the chunked-send path and the in-memory data set on one primitive", mod=m, node=node, path=(witness(cfg, pred, cfg.exit, bad[0]) if bad else None))
     rep.floor("_dataset_path writers (send side)", n, 1)
     return all_ok
+
+
+def check_reader_presence(repo: Repo, rep: Report, rule: str) -> None:
+    """decode_msg ends a message at its last command fragment exactly when the command set says that no data
+    set follows: Command Data Set Type == 0x0101 (PS3.7 E.1: 'any other value' means a data set is present).
+    The completion test - with the local bindings it uses - is evaluated (sa/minipy.py) for 0x0101 and for
+    values that announce a data set (0x0001, 0x0000, 0x0102, 0xFFFF), whatever its spelling."""
+    from ..minipy import Interp, Obj, Raised, Unsupported
+
+    mod = repo.mod("dimse_messages")
+    dec = repo.func("dimse_messages", "DIMSEMessage.decode_msg")
+    fq = "dimse_messages.DIMSEMessage.decode_msg"
+    cands = []
+    for i in walk_no_nested(dec):
+        if isinstance(i, ast.If) and any("CommandDataSetType" in norm(x) for x in ast.walk(i.test)) or (isinstance(i, ast.If) and i.body and isinstance(i.body[-1], ast.Return) and isinstance(i.body[-1].value, ast.Constant) and i.body[-1].value.value is True and _uses_cdst(i, dec)):
+            cands.append(i)
+    cands = [i for i in cands if any(isinstance(s_, ast.Return) and isinstance(s_.value, ast.Constant) and s_.value.value is True for s_ in i.body + i.orelse)]
+    if len(cands) != 1:
+        rep.defer(f"{fq}: the 'no data set follows' completion test was not found ({len(cands)} candidates)")
+        return
+    iff = cands[0]
+    blk = _block_of(dec, iff)
+    pre = [s_ for s_ in blk[: blk.index(iff)] if isinstance(s_, ast.Assign) and isinstance(s_.targets[0], ast.Name) and any(isinstance(x, ast.Name) and x.id == s_.targets[0].id for x in ast.walk(iff.test))]
+    true_completes = any(isinstance(s_, ast.Return) for s_ in iff.body)
+    n = 0
+    for v, want in ((0x0101, True), (0x0001, False), (0x0000, False), (0x0102, False), (0xFFFF, False)):
+        cs = Obj("Dataset", {"CommandDataSetType": v})
+        cs.attrs["@get"] = lambda self_, key, default=None: self_.attrs.get(key, default)
+        env = {"self": Obj("DIMSEMessage", {"command_set": cs})}
+        it = Interp({})
+        try:
+            for s_ in pre:
+                it.stmt(s_, env)
+            t = bool(it.ev(iff.test, env))
+        except (Unsupported, Raised) as exc:
+            rep.defer(f"{fq}: completion test not evaluable ({getattr(exc, 'kind', exc)})")
+            return
+        n += 1
+        completes = t if true_completes else not t
+        rep.check(completes == want, rule, fq, f"CommandDataSetType = 0x{v:04X} -> message {'complete' if completes else 'waits for a data set'}", f"with Command Data Set Type 0x{v:04X} the message must {'be complete at its last command fragment' if want else 'wait for its data-set fragments (only 0x0101 means none follow)'}: otherwise {'the receiver waits for fragments that never come' if want else 'the data-set fragments that follow land in a fresh, untyped message and the association is aborted'}", mod=mod, node=iff)
+    rep.floor("Command Data Set Type values evaluated", n, 5)
+
+
+def _uses_cdst(iff: ast.If, fn: ast.AST) -> bool:
+    """the test reads a local bound from the command set's CommandDataSetType"""
+    names = {x.id for x in ast.walk(iff.test) if isinstance(x, ast.Name)}
+    for s_ in walk_no_nested(fn):
+        if isinstance(s_, ast.Assign) and isinstance(s_.targets[0], ast.Name) and s_.targets[0].id in names and "CommandDataSetType" in norm(s_.value):
+            return True
+    return False
+
+
+def _block_of(fn: ast.AST, st: ast.stmt) -> list:
+    for p in ast.walk(fn):
+        for f_ in ("body", "orelse", "finalbody"):
+            b = getattr(p, f_, None)
+            if isinstance(b, list) and any(x is st for x in b):
+                return b
+    return []
